@@ -38,6 +38,7 @@ for name, patch, props, meta in jobs:
                 clauses = sorted(set(re.findall(r"clause=([\w.]+)", r.stdout)))
                 entry["checks"][p] = {"rc": r.returncode, "violation_lines": r.stdout.count("\nVIOLATION") + r.stdout.startswith("VIOLATION"),
                                       "clauses": clauses, "wall_s": round(time.time() - t0)}
+        res = json.load(open(out_path)) if os.path.exists(out_path) else {}     # another instance may have written meanwhile
         res[name] = entry
         json.dump(res, open(out_path, "w"), indent=1)
         print(name, entry["applies"], {p: (c["rc"], c["clauses"]) for p, c in entry["checks"].items()}, flush=True)
